@@ -6,7 +6,7 @@ import lib
 ID = "C14"
 PROP_FILE = "props/C14.v"
 COQ_TARGETS = ["props/C14.v"]
-THEOREMS = ["C14_cols_partial", "C14_cols_refuted", "C14_cols_tie_refuted"]
+THEOREMS = ["C14_text_self_identity", "C14_text_no_occurrence", "C14_cols_partial", "C14_cols_refuted", "C14_cols_tie_refuted"]
 TRUSTED_BASE = [
     "Coq 8.16.1 kernel, vm_compute for the in-coqc correspondence",
     "model/Augment.v: hand transcription of replace_tokens_and_get_augmented_positions and fix_positions, tied by K-aug; Python's tokenizer "
@@ -38,16 +38,35 @@ def gen_case(rng):
         return "v%d" % vid[0]
 
     nlines = rng.choice([1, 1, 2, 3])
+    shape = rng.choice(["plain", "plain", "layout", "layout", "layout"])      # layout: the shapes of round 5's hunt (section 7 C14)
     for ln in range(1, nlines + 1):
         terms = []
         nterms = rng.choice([1, 2, 3, 4])
         prev_name = None
         line = "z%d = " % ln
+        if shape == "layout" and rng.random() < 0.3:
+            line = "z%d = ('\u00e9\u00e9', " % ln              # non-ASCII characters earlier on the line: columns in characters vs bytes
+            nterms = 1
         for ti in range(nterms):
             v = name()
             r = rng.random()
             term = v
             tail_ident = v
+            if shape == "layout" and rng.random() < 0.25 and ("dot" in have or "suffix" in have):
+                # a parenthesized object: the token stands after the closing parenthesis
+                if "dot" in have and (rng.random() < 0.6 or "suffix" not in have):
+                    term = "(%s)" % v + have["dot"]["token"] + "at"
+                    placed.append((have["dot"]["token"], "A:%s.at" % v, ln))
+                    tail_ident = "at"
+                else:
+                    term = "(%s).at" % v + have["suffix"]["token"]
+                    placed.append((have["suffix"]["token"], "A:%s.at" % v, ln))
+                    tail_ident = "at"
+                if ti > 0:
+                    line += " + "
+                line += term
+                prev_tail = tail_ident
+                continue
             if r < 0.3 and "prefix" in have:
                 term = have["prefix"]["token"] + v
                 placed.append((have["prefix"]["token"], "N:" + v, ln))
@@ -70,6 +89,8 @@ def gen_case(rng):
                     line += " + "
             line += term
             prev_tail = tail_ident
+        if line.startswith("z%d = ('" % ln):
+            line += ")"
         if rng.random() < 0.2:
             line += "  # " + "".join(s["token"] for s in specs) + " x"
         lines.append(line)
@@ -79,9 +100,22 @@ def gen_case(rng):
     # line numbers of placed must account for inserted string lines
     src_lines, remap, cur = [], {}, 0
     logical = 0
+    indent = ""
+    if shape == "layout":
+        pre = rng.choice(["block", "tabs", "fstring", "continuation", "mlstring", "none"])
+        if pre in ("block", "tabs"):
+            indent = "\t" if pre == "tabs" else "    "
+            src_lines += ["if True:", indent + "q0 = 0"]                 # the z-lines follow as 2nd, 3rd ... statements of the block
+        elif pre == "fstring":
+            src_lines += ['f0 = f"{{x}} %s{{}}"' % specs[0]["token"]]     # escaped braces and the token as literal text of an f-string
+        elif pre == "continuation":
+            src_lines += ["c0 = 1 + \\", "    2"]                        # a backslash continuation before the occurrences
+        elif pre == "mlstring":
+            src_lines += ['m0 = """a %s' % specs[0]["token"], '   b"""']
+        cur = len(src_lines)
     for l in lines:
         cur += 1
-        src_lines.append(l)
+        src_lines.append(indent + l if l.startswith(("z", "s")) else l)
         if l.startswith("z"):
             logical += 1
             remap[logical] = cur
@@ -180,7 +214,7 @@ def misordered(c, im):
     """true left-to-right order of the occurrences on each line of the ORIGINAL source vs order of recorded columns"""
     src_lines = c["src"].splitlines()
     for li, line in enumerate(src_lines, start=1):
-        if not line.startswith("z"):
+        if not line.strip().startswith("z"):
             continue
         code = line.split("#")[0]
         occs = []
@@ -212,12 +246,12 @@ def cstr(s):
 
 def coq_cases_file(rows):
     L = ["From Coq Require Import List ZArith NArith Bool.", "Import ListNotations.", "From PyccoloV Require Import model.Augment.",
-         "Definition tk (s : str) (a b c d : Z) : token := {| t_str := s; t_sline := a; t_scol := b; t_eline := c; t_ecol := d |}."]
+         "Definition tk (g s : str) (o : bool) (a b : Z) : token := {| t_gap := g; t_text := s; t_opaque := o; t_row := a; t_col := b |}."]
     for kind, row in rows:
         if kind == "replace":
             tok, repl, tokens = row
             L.append("Eval vm_compute in replace_tokens %s %s [%s]." % (cstr(tok), cstr(repl), "; ".join(
-                "tk %s (%d)%%Z (%d)%%Z (%d)%%Z (%d)%%Z" % (cstr(t[0]), t[1], t[2], t[3], t[4]) for t in tokens)))
+                "tk %s %s %s (%d)%%Z (%d)%%Z" % (cstr(t[0]), cstr(t[1]), "true" if t[2] else "false", t[3], t[4]) for t in tokens)))
         else:
             offs, occs = row
             f = "fun k => match k with %s | _ => 0%%Z end" % " | ".join("%d%%nat => (%d)%%Z" % (i, o) for i, o in enumerate(offs))
